@@ -177,8 +177,9 @@ pub fn get_apid_for_tag(namespace: u32, tag: &str) -> DltChar4 {
                     .unwrap_or(DltChar4::from_str(&get_4digit_str("NoAs", iteration)).unwrap()),
                 };
 
-                // does apid exist already?
-                if let Some((_k, _v)) = map.iter().find(|(_k, v)| v == &&apid) {
+                // does apid exist already? (after 9999 iterations all 4 digit abbreviations are used, then
+                // we accept a non unique apid)
+                if iteration < 9999 && map.iter().any(|(_k, v)| v == &apid) {
                     /* println!(
                         "get_apid_for_tag iteration {} apid {} for tag {} exists already for tag {}",
                         iteration, apid, tag, k
